@@ -124,6 +124,37 @@ def _g3_transfer(vars_key='V'):
     return transfer
 
 
+def _desugar_ifexp_assign(fn):
+    """`saved = code.all_new_labels() if flag else None` is `if flag: saved = ...; else: saved = None` for the label analysis (the flow engine then
+    correlates the later `if flag:` restore with it).  Returns fn itself when there is nothing to rewrite, else a rewritten copy."""
+    import copy
+
+    def hit(s):
+        return isinstance(s, ast.Assign) and isinstance(s.value, ast.IfExp) and any(
+            _code_call(x, ('new_loop_labels', 'new_error_label', 'all_new_labels', 'get_loop_labels', 'get_all_labels')) for x in ast.walk(s.value))
+    if not any(hit(s) for s in walk_no_nested(fn)):
+        return fn
+    fn = copy.deepcopy(fn)
+
+    class T(ast.NodeTransformer):
+        def visit_FunctionDef(self, node):
+            if node is not fn:
+                return node
+            self.generic_visit(node)
+            return node
+
+        def visit_Assign(self, node):
+            if not hit(node):
+                return node
+            a = ast.Assign(targets=node.targets, value=node.value.body)
+            b = ast.Assign(targets=copy.deepcopy(node.targets), value=node.value.orelse)
+            new = ast.If(test=node.value.test, body=[a], orelse=[b])
+            for x in (a, b, new):
+                ast.copy_location(x, node)
+            return ast.fix_missing_locations(new)
+    return T().visit(fn)
+
+
 def rule_G3(ctx, floor=9):
     """Label context: whatever a code-generating function does to the function-state label slots
     (error/break/continue/return) is undone on every normal exit."""
@@ -148,7 +179,7 @@ def rule_G3(ctx, floor=9):
             _g3_cross(ctx, r, m, owner, fn, key)
             continue
         try:
-            o = pyflow.Flow(tr).run(fn)
+            o = pyflow.Flow(tr).run(_desugar_ifexp_assign(fn))
         except pyflow.TooManyStates:
             r.info('%s: state explosion, skipped' % key)
             continue
